@@ -411,6 +411,60 @@ fn builtin_types(r: &Report) {
         r.add(sub, n, n);
         r.outcome(sub, "IanaTag", n);
     }
+    // Tag: encodes as the bare head of its number (the tagged item follows separately); decode reads it back
+    {
+        let mut n = 0u64;
+        for num in refmodel::enumerate::lattice64() {
+            n += 1;
+            let t = Tag::new(num);
+            let out = minicbor::to_vec(t).unwrap();
+            let back: Result<Tag, _> = minicbor::decode(&out);
+            if out != preferred_head(6, num) || minicbor::len(t) != out.len() || back.as_ref().ok() != Some(&t) {
+                r.fail(sub, None, json!({"type": "Tag", "number": num}), format!("encoded as {} (len() = {}), decoded back as {:?}", hex(&out), minicbor::len(t), back.map(|t| t.as_u64()).ok()));
+            }
+        }
+        r.add(sub, n, n);
+        r.outcome(sub, "Tag", n);
+    }
+    // encode-only instantiations: &mut T, &&T, [T] (through a reference), Box<[T]>, Box<Vec<T>>, str
+    {
+        let mut n = 0u64;
+        let mut one = |name: &str, out: Result<Vec<u8>, String>, len: usize, want: Item| {
+            n += 1;
+            let wb = want.to_bytes();
+            match out {
+                Ok(o) if o == wb && len == wb.len() => {}
+                o => r.fail(sub, None, json!({"type": name, "value": want.diag()}), format!("wrote {:?} (len() = {}), expected {}", o.map(|o| hex(&o[..o.len().min(32)])), len, hex(&wb[..wb.len().min(32)]))),
+            }
+        };
+        fn tv<T: minicbor::Encode<()>>(x: T) -> Result<Vec<u8>, String> {
+            mcx::par::guard(|| minicbor::to_vec(x)).map_err(|p| p.to_string()).and_then(|r| r.map_err(|e| e.to_string()))
+        }
+        for x in [0u16, 23, 24, 255, 256, 65535] {
+            let mut y = x;
+            let l = minicbor::len(&mut y);
+            one("&mut u16", tv(&mut y), l, Item::uint(x as u64));
+            one("&&u16", tv(&&x), minicbor::len(&&x), Item::uint(x as u64));
+            one("&mut &u16", tv(&mut &x), minicbor::len(&mut &x), Item::uint(x as u64));
+            one("Box<Box<u16>>", tv(Box::new(Box::new(x))), minicbor::len(Box::new(Box::new(x))), Item::uint(x as u64));
+        }
+        for len in [0usize, 1, 23, 24, 255, 256] {
+            let data: Vec<u16> = (0..len).map(|i| (i * 257) as u16).collect();
+            let want = Item::array(data.iter().map(|x| Item::uint(*x as u64)).collect());
+            one("&[u16]", tv(&data[..]), minicbor::len(&data[..]), want.clone());
+            one("&mut [u16]", tv(&mut data.clone()[..]), minicbor::len(&mut data.clone()[..]), want.clone());
+            one("Box<[u16]>", tv(data.clone().into_boxed_slice()), minicbor::len(data.clone().into_boxed_slice()), want.clone());
+            one("Box<Vec<u16>>", tv(Box::new(data.clone())), minicbor::len(Box::new(data.clone())), want.clone());
+            one("&Vec<u16>", tv(&data), minicbor::len(&data), want.clone());
+            let opt: Vec<Option<&str>> = (0..len).map(|i| if i % 2 == 0 { None } else { Some("ab") }).collect();
+            let want = Item::array(opt.iter().map(|x| x.map(Item::text).unwrap_or(NULL)).collect());
+            one("&[Option<&str>]", tv(&opt[..]), minicbor::len(&opt[..]), want);
+            let s: String = "x".repeat(len);
+            one("&mut str", tv(&mut *s.clone().into_boxed_str()), minicbor::len(&mut *s.clone().into_boxed_str()), Item::text(&s));
+        }
+        r.add(sub, n, n);
+        r.outcome(sub, "encode-only", n);
+    }
     r.sample(sub, json!({"type": "Vec<u8>", "value": "[0, 255]", "encoded_hex": "820018ff"}));
 }
 
